@@ -370,6 +370,26 @@ def visits_all(ctx, cfg, a, base, length, sink, sink_iter_res, sink_slice_res):
         n = nexts[0]
         recv = n.args[0]
         held = n.mem.get((recv[1], ())) if recv[0] == "P" else None
+        if isinstance(held, tuple) and len(held) == 3 and held[0] == "A" and isinstance(held[1], tuple) and held[1][:2] == ("adt", "core::ops::Range") and n.ret[0] == "O" and n.ret[1][0] == "I":
+            # form E: for i in 0..N { sink(&mut *base.add(i)) } - every index of the full view once, in order (core's Range iteration is trusted)
+            from .poly import prove, Poly as _P
+            lo_, hi_ = held[2][0], held[2][1]
+            full = lo_ == ("I", _P.const(0)) and hi_[0] == "I" and hi_[1] == length
+            idx = n.ret[1][1]
+            S_ = None
+            good = set()
+            for c in sinks:
+                p_ = c.args[0]
+                if p_[0] == "P" and p_[1] == base and c.targs:
+                    S_ = a.tenv.size(c.targs[0])
+                    if prove(("==", p_[2] - idx * S_), a.poly_facts(c.facts)):
+                        good.add(c.bb)
+            if len(good) != len(sinks) or not sinks:
+                return False, "form E: %s is not called on element i of the view for the index i yielded by the range" % sink.split("::")[-1]
+            none_only = bool(a.returns) and all(("variant", n.ret, 0) in r["facts"] for r in a.returns)
+            rets = {r["bb"] for r in a.returns}
+            ok, det = _loop_cover(a, n, good, rets)
+            return full and ok and none_only, "form E: loop over the index range 0..N: %s; returns only when it is exhausted: %s; %s" % (full, none_only, det)
         if not _pure_full_iter(held, base, length):
             return False, "form D: next() receiver is not the unadapted iterator over the full view: %s" % vstr(held)
         if not (n.ret[0] == "O" and n.ret[1][0] == "P"):
